@@ -39,7 +39,9 @@ func (c *Case) doc() any {
 }
 
 var sensitive = []string{"yes", "no", "on", "~", "null", "", " ", "0123", "0x1f", "1_000", "1e3", ".inf", "2001-12-14", " lead", "trail ", "a\tb", "line\nbreak", "trailing\n", "a\r\nb", "'single'", "\"double\"",
-	"#comment", "a: b", "- item", "---", "| pipe", "> fold", "&anchor", "*alias", "!tag", "%dir", "@at", "`tick", "{brace}", "[bracket]", "\\", "\u00e9", "\U0001F600", "\u00a0", "\ufeff", "=", "<<", "0", "true", strings.Repeat("x", 300)}
+	"#comment", "a: b", "- item", "---", "| pipe", "> fold", "&anchor", "*alias", "!tag", "%dir", "@at", "`tick", "{brace}", "[bracket]", "\\", "\u00e9", "\U0001F600", "\u00a0", "\ufeff", "=", "<<", "0", "true", strings.Repeat("x", 300),
+	// control and non-characters the writer has to escape for one of the two readers
+	"a\x7fb", "\x01", "a\x1bb", "\u0085", "a\u009fb", "\u2028", "\u2029", "\ufffe", "\uffff", "\U0010ffff", "\x00"}
 
 type worker struct {
 	dir   string
@@ -57,7 +59,7 @@ func newWorker(root string, i int) *worker {
 // readVerdict: does ReadSpec / cache load accept the JSON rendering?
 func (w *worker) readVerdict(doc any) (read, cacheOK bool, spec *specs.Spec) {
 	path := filepath.Join(w.dir, "load", "doc.json")
-	_ = os.WriteFile(path, gen.RenderJSON(doc), 0o644)
+	_ = os.WriteFile(path, gen.RenderJSONASCII(doc), 0o644) // pure ASCII: readable whatever the strings contain
 	defer os.Remove(path)
 	s, err := cdi.ReadSpec(path, 0)
 	_ = w.cache.Refresh()
